@@ -172,7 +172,7 @@ def pred_long(case, ctx):
 
 
 SUBPROPS = [
-    SubProp("many_frames", pred_long, strategy=long_case, n=(60, 1500), shards=(6, 8), floor=0.1,
+    SubProp("many_frames", pred_long, strategy=long_case, n=(60, 300), shards=(6, 8), floor=0.1,
             rule="the same annotations stretched to 2^10..2^19 frames (long recording / small frame_size); ARI, MI, AMI, NMI, NCE against the contingency "
                  "table derived from interval overlaps (pairwise / Rand build n x n matrices and are run up to 12 288 frames only); NT = >= 2 labels each side, not a bijection"),
     SubProp("clustering_indices", pred_indices, strategy=gs.segmentation_pair, n=(2500, 60000), shards=(4, 16), floor=0.15,
